@@ -25,6 +25,8 @@
 (*                is the root's; masks are the children                    *)
 (*   OctLaw       node byte ranges are those of the node's cells, ordered  *)
 (*                and disjoint; "wholly present" by offsets = by cells     *)
+(*   RecLaw       the closed form of "records wholly present" (COLMAP)     *)
+(*                names record boundaries of the cell layout               *)
 (*   Budget       all expected lattice numbers fit 31 bits                 *)
 (***************************************************************************)
 EXTENDS PcFormats, Json
@@ -167,6 +169,13 @@ OctLaw == gf.fmt = "pnode" =>
           /\ NodeCells(i) # {} => (\A c \in NodeCells(i) : ONodeOff(gf, i) <= gc[c].o /\ End(gc[c]) <= ONodeOff(gf, i) + ONodeSize(gf, i))
           /\ (ONodeSize(gf, i) = 0 \/ ONodeOff(gf, i) + ONodeSize(gf, i) <= gk) <=> (NodeCells(i) \subseteq Whole(gc, gk))
           /\ i > 1 => ONodeOff(gf, i - 1) + ONodeSize(gf, i - 1) <= ONodeOff(gf, i)
+
+\* the closed form of "records wholly present" names cell boundaries of the layout
+RecLaw == (gk = 0 /\ gf.fmt \in {"cpts", "cimg"}) =>
+    LET z == RecSizes(gf) IN
+    /\ \A i \in DOMAIN z : \E c \in DOMAIN gc : End(gc[c]) = 8 + Sum(SubSeq(z, 1, i)) /\ gc[c].g \in {"ntrack", "track", "npoint", "point"}
+    /\ 8 + Sum(z) = SLen
+    /\ WholeRecs(gf, SLen) = Len(z) /\ WholeRecs(gf, SLen - 1) = (IF z = <<>> THEN 0 ELSE Len(z) - 1)
 
 InBudget(x) == -1073741824 < x /\ x < 1073741824
 Budget == gk = 0 =>
